@@ -1505,7 +1505,7 @@ class Evaluator:
             s = self._unfilter(s)
             it = self.expr(s.iter, st, mod, fi, depth)
             tsrc = ast.unparse(s.target)
-            lit = it
+            lit = it.value if isinstance(it, GlobalVal) else it      # a module-level table of evident rows
             if isinstance(lit, Call) and isinstance(lit.func, Ext) and lit.func.name in ('reversed',) and len(lit.args) == 1 and isinstance(lit.args[0], TupleT):
                 lit = TupleT(tuple(reversed(lit.args[0].items)), lit.args[0].kind)
             members = self._enum_members_iter(it)
